@@ -6,6 +6,7 @@ package p9
 import (
 	"io"
 	"net"
+	"reflect"
 	"runtime"
 	"sort"
 	"strings"
@@ -53,9 +54,26 @@ func vhgProbeRW(mu *sync.RWMutex) int {
 	return 2
 }
 
+// vhgTreeRoot finds the root of the server's path tree by TYPE (the field of Server that is a *pathNode),
+// not by name: renaming the field is harmless, and a server without such a field (tree kept elsewhere)
+// only makes the white-box probes inconclusive instead of breaking the build.
+func vhgTreeRoot(srv *Server) *pathNode {
+	v := reflect.ValueOf(srv).Elem()
+	want := reflect.TypeOf((*pathNode)(nil))
+	for i := 0; i < v.NumField(); i++ {
+		if f := v.Field(i); f.Type() == want {
+			return (*pathNode)(f.UnsafePointer())
+		}
+	}
+	return nil
+}
+
 // vhgFindNode walks the server's path tree without ever blocking.
 func vhgFindNode(srv *Server, path string) *pathNode {
-	pn := srv.pathTree
+	pn := vhgTreeRoot(srv)
+	if pn == nil {
+		return nil // no server-wide tree root found: the probes stay "not determined"
+	}
 	for _, name := range strings.Split(path, "/") {
 		if name == "" {
 			continue
